@@ -21,16 +21,13 @@
     NOT TIED (not constants of the source, Gen/Params.v has nothing to offer):
     - [std_max_input_length] = 1024: stdMaxInputLength of neo-go
       pkg/core/native/std.go, a platform limit;
-    - the character classes of [isAlNum] / [checkFragment] ('a' 'z' '0' '9'
-      '-'), the separators '.' and ':', every bound of [checkIPv4]
-      (7, 15, 4, 255, 0/10/127/224/169.254/172.16-31/192.168, 0/255) and of
-      [checkIPv6] (2, 39, 3, 9, 8, 7, 4, 65535, 0x2000.. 0x3fff, 0x2001,
-      0x2002, 0x3ffe, 0x200, 0xdb8): unnamed literals inside the function
-      bodies contracts/nns/contract.go:881-910 (checkFragment, isAlNum),
-      :919 (StringSplit "."), :940-985 (checkIPv4), :988-1058 (checkIPv6);
-      only declared constants are extracted.  They are covered by
-      the C18 correspondence runs against the compiled contract, and on the
-      grammar side they come from the RFCs, not from the source. *)
+    The character classes of [isAlNum] / [checkFragment] ('a' 'z' '0' '9' '-') and the
+    separator '.' are unnamed literals inside Go function bodies; they are tied to the
+    per-function literal lists of Gen/Params.v (p_nns_<func>_{int,str}lits, the literals
+    of the body in source order), see the last section.  The bounds of [checkIPv4] and
+    [checkIPv6] are PINNED there: the literal lists of the two functions are required to be
+    the ones the model was written against, so that an edited bound is noticed by C18's
+    obligations (the model then has to be re-examined). *)
 From Coq Require Import ZArith NArith List String.
 Import ListNotations.
 From Verif Require Import Base.Prelude Base.IntCodec Gen.Params
@@ -224,3 +221,53 @@ Lemma tie_grammar_record_types_obs :
   List.filter (fun t => valid_record_datab t (lbl p_nns_maxTXTRecordLength)) all_type_codes = [p_recordtype_TXT] /\
   List.filter (fun t => valid_record_datab t (lbl (p_nns_maxTXTRecordLength + 1))) all_type_codes = [].
 Proof. vm_compute. repeat split; reflexivity. Qed.
+
+(* ------------------------------------------------------------------ *)
+(** * Literals written inline in Go function bodies *)
+
+Definition in_rangeZ (c : N) (lo hi : Z) : bool := (lo <=? Z.of_N c) && (Z.of_N c <=? hi).
+Definition all_bytes : list N := map N.of_nat (seq 0 256).
+
+(** isAlNum: [c >= 'a' && c <= 'z' || c >= '0' && c <= '9'], on every byte value. *)
+Lemma tie_isAlNum :
+  let l := p_nns_isAlNum_intlits in
+  forallb (fun c => Bool.eqb (isAlNum c) (in_rangeZ c (nth 0 l 0) (nth 1 l 0) || in_rangeZ c (nth 2 l 0) (nth 3 l 0)))
+          all_bytes = true /\ length l = 4%nat.
+Proof. split; vm_compute; reflexivity. Qed.
+
+(** checkFragment: a root starts with ['a'..'z'] (literals 2, 3 of the body); inner
+    characters are alphanumeric or '-' (literal 6). *)
+Lemma tie_checkFragment_chars :
+  let l := p_nns_checkFragment_intlits in
+  forallb (fun c => Bool.eqb (checkFragment [c; 97%N] true) (in_rangeZ c (nth 2 l 0) (nth 3 l 0))) all_bytes = true /\
+  forallb (fun c => Bool.eqb (checkFragment [97%N; c; 97%N] false) (isAlNum c || (Z.of_N c =? nth 6 l 0))) all_bytes = true /\
+  length l = 8%nat.
+Proof. repeat split; vm_compute; reflexivity. Qed.
+
+(** safeSplitAndCheck: std.StringSplit(name, ".") *)
+Lemma tie_name_separator :
+  let sep := bytes_of_string (nth 0 p_nns_safeSplitAndCheck_strlits EmptyString) in
+  safeSplitAndCheck ([97; 98]%N ++ sep ++ [99; 100]%N) = Halt (Some [[97; 98]%N; [99; 100]%N]) /\
+  length sep = 1%nat.
+Proof. split; vm_compute; reflexivity. Qed.
+
+(** checkIPv4 / checkIPv6: the separators are tied, the numeric bounds are pinned. *)
+Lemma tie_ip_separators :
+  let dot := bytes_of_string (nth 0 p_nns_checkIPv4_strlits EmptyString) in
+  let colon := bytes_of_string (nth 0 p_nns_checkIPv6_strlits EmptyString) in
+  checkIPv4 ([56]%N ++ dot ++ [56]%N ++ dot ++ [56]%N ++ dot ++ [56]%N) = Halt true /\
+  checkIPv6 ([50; 97; 48; 48]%N ++ colon ++ [49]%N ++ colon ++ colon ++ [49]%N) = Halt true /\
+  p_nns_checkIPv6_strlits = [":"; "0"]%string.
+Proof. repeat split; vm_compute; reflexivity. Qed.
+
+Lemma pin_checkIPv4_literals :
+  p_nns_checkIPv4_intlits =
+  [7; 15; 4; 4; 0; 0; 48; 57; 0; 0; 255; 0; 0; 48; 0; 1; 0; 1; 3; 0; 10; 127; 224; 169; 254; 172; 16; 31;
+   192; 168; 0; 255].
+Proof. reflexivity. Qed.
+
+Lemma pin_checkIPv6_literals :
+  p_nns_checkIPv6_intlits =
+  [2; 39; 3; 9; 9; 0; 0; 1; 0; 7; 0; 8; 0; 8; 0; 0; 1; 0; 0; 1; 1; 0; 7; 0; 9; 0; 4; 16; 65535; 8; 8; 0;
+   8192; 8194; 16382; 16383; 8193; 1; 512; 3512].
+Proof. reflexivity. Qed.
